@@ -52,6 +52,13 @@ int main() {
     const std::string cmd = t.next();
     struct Watch { Watch() { alarm(CX_CMD_SECONDS); } ~Watch() { alarm(0); } } watch;
     if (cmd == "CLIP") { Rect64 r = rd_rect(t); Paths64 ps = t.paths(); os << "OK "; put(os, RectClip(r, ps)); }
+    else if (cmd == "CLIP2") {   // two Execute calls on ONE RectClip64 object (what RectClip() does, twice, without a fresh object)
+      Rect64 r = rd_rect(t); Paths64 ps = t.paths(); Paths64 qs = t.paths();
+      RectClip64 rc(r);
+      Paths64 a = (r.IsEmpty() || ps.empty()) ? Paths64() : rc.Execute(ps);
+      Paths64 b = (r.IsEmpty() || qs.empty()) ? Paths64() : rc.Execute(qs);
+      os << "OK "; put(os, a); os << " | "; put(os, b);
+    }
 #ifndef CX_RECT_API_ONLY   // everything below needs private members / file-local functions
     else if (cmd == "CLIPX") {
       // one path through the stages of RectClip64::Execute (same call sequence as its loop body).
